@@ -946,7 +946,15 @@ def run(ctx):
             lines[0] = tl0 + "." * (w - len(tl0)) + ("\r" if lines[0].endswith("\r") else "")
             t2 = "\n".join(lines)
             cand.append((t2, w, ask(["cards %d %s" % (w, hx(t2))])[0], False))
-    for text, w, a_cards, fit in cand[:n_rt] + cand[-8:]:
+    # committed round-trip cases (corpus/Spec/*.json with "roundtrip": true)
+    extra = []
+    for c in load_corpus():
+        if c.get("roundtrip"):
+            t2 = unhx(c["hex"]) if "hex" in c else c["text"]
+            w2 = c.get("width", 128)
+            pl2 = spec.physical_lines(t2, w2)
+            extra.append((t2, w2, ask(["cards %d %s" % (w2, hx(t2))])[0], len(pl2[0].rstrip(" ")) <= w2 - 1))
+    for text, w, a_cards, fit in extra + cand[:n_rt] + cand[-8:]:
         out = real_roundtrip(text, w)
         rt["checked"] += 1
         if not isinstance(out, str):
